@@ -237,16 +237,20 @@ class Group:
         self.determinants[type_].append(Determinant(new_determinant.group,
                                                     new_determinant.value))
 
-    def remove_determinants(self, labels):
-        """Remove all determinants with specified labels.
+    def remove_determinants(self, groups):
+        """Remove all determinants towards the specified groups.
+
+        Groups are compared like everywhere else (label; for hetero groups,
+        whose label holds no residue number, also the residue number), so
+        that a second copy of a ligand in the same chain is left alone.
 
         Args:
-            labels:  list of labels to remove
+            groups:  list of groups whose determinants are removed
         """
         for type_ in ['sidechain', 'backbone', 'coulomb']:
             matches = list(
-                filter(lambda d: d.label
-                       in labels, [d for d in self.determinants[type_]]))
+                filter(lambda d: d.group
+                       in groups, [d for d in self.determinants[type_]]))
             for match in matches:
                 self.determinants[type_].remove(match)
 
